@@ -133,6 +133,16 @@ def flags(F, R):
             ta = f.targs() or []
             st = strip_cvref(str(ta[0])) if ta else ''
             if not st: continue
+            # the oracle needs the state's declarations: eUML / PlantUML states configure their flags through template
+            # arguments of generated classes whose records are not part of the facts -> no oracle, no obligation
+            def unknown(t, depth=0):
+                if 'front::euml::' in t or 'front::puml::' in t: return True
+                rec_ = F.rec_by_type(t)
+                if rec_ is None: return True
+                return depth < 4 and any(unknown(F.strs[b['t']], depth + 1) for b in rec_['bases'] if 'boost::msm::front::' in F.strs[b['t']] and ('euml' in F.strs[b['t']] or 'puml' in F.strs[b['t']]))
+            sub_ = M.machine_of(st)
+            if unknown(st) or (sub_ and unknown(sub_.fe)):
+                R.anchor('init-flags-no-oracle:' + be); continue
             R.seen(f); R.anchor('init-flags:' + be)
             fl = [strip_cvref(x) for x in M.flags(st) + M.internal_flags(st)]
             frec = F.rec_by_type(flag)
@@ -699,6 +709,13 @@ def plans_mp11_table(F, R):
             ok = ops and all(o in ('emplace_back', 'push_back') for o in ops)
             R.ob('C01.plan', bool(ok), {'func': f.q, 'ops': ops})
             if not ok: R.find('C01.plan', f, 'chain-append', 'cells must be appended to the chain (table order = priority order); found %s' % ops)
+        if f.n == 'execute' and f.cls in ('transition_chain', 'internal_transition_chain'):
+            from rules_rtc import acc_writes
+            R.seen(f); R.anchor('fct-chain-exec')
+            ws = acc_writes(f, 'result')
+            ok = bool(ws) and all(w[1] for w in ws)
+            R.ob('C06.or', ok, {'func': f.q, 'writes': [w[2] for w in ws]})
+            if not ok: R.find('C06.or', f, 'acc-write', 'the chain must OR each candidate\'s result into the accumulated result (a guard reject must survive a later not-handled): %s' % [w[2] for w in ws])
         if f.n == 'dispatch' and f.cls == 'state_dispatch_table':
             R.seen(f); R.anchor('fct-state-dispatch')
             order = f.linear_nodes()
@@ -707,3 +724,37 @@ def plans_mp11_table(F, R):
             ok = len(sub) == 1 and len(find) == 1 and order.index(sub[0]) < order.index(find[0])
             R.ob('C01.plan', ok, {'func': f.q})
             if not ok: R.find('C01.plan', f, 'submachine-first', 'the composite state\'s own process_event must be tried before the state\'s transition chain')
+
+
+@rule('anyevents')
+def anyevents(F, R):
+    """back + favor_compile_time: a submachine receives events as boost::any and re-types them by trying the event types of its
+    own table AND of every machine nested below it; the set of types tried (instantiations of process_any_event_helper<Fsm>::operator())
+    must contain every trigger declared at any depth below Fsm."""
+    M = Model(F)
+    tried = {}
+    for f in F.funcs:
+        if f.cls == 'process_any_event_helper' and f.n == 'operator()':
+            a = f.cls_args('process_any_event_helper'); t = f.targs()
+            if a and t: tried.setdefault(strip_cvref(str(a[0])), set()).add(strip_cvref(str(t[0])))
+    for fsm, evs in sorted(tried.items()):
+        m = M.machine_of(fsm)
+        if m is None or M.rows(m.fe) is None: continue
+        R.anchor('any-event-set')
+        need = set()
+        def collect(fe, depth=0):
+            rows = M.rows(fe)
+            if rows is None or depth > 6: return
+            for r in rows + (M.rows(fe, 'internal_transition_table') or []):
+                if r['evt'] and not M.is_kleene(r['evt']): need.add(strip_cvref(r['evt']))
+            for s in M.states(fe):
+                for r in (M.rows(s, 'internal_transition_table') or []):
+                    if r['evt'] and not M.is_kleene(r['evt']): need.add(strip_cvref(r['evt']))
+                sm = M.machine_of(s)
+                if sm: collect(sm.fe, depth + 1)
+        collect(m.fe)
+        need = {e for e in need if not (F.rec_by_type(e) and 'completion_event' in F.rec_by_type(e)['tds'])}
+        missing = sorted(need - evs)
+        R.ob('C07.any-events', not missing, {'machine': Facts.short(m.fe, 60), 'tried': len(evs), 'declared_below': len(need)})
+        if missing:
+            R.find('C07.any-events', ('boost/msm/back/favor_compile_time.hpp', 'BOOST_MSM_BACK_GENERATE_PROCESS_EVENT'), 'missing-events', 'process_any_event of %s does not try event type(s) %s, which are triggers of machines nested below it: such events are never forwarded under favor_compile_time' % (Facts.short(m.fe, 60), [Facts.short(x, 40) for x in missing[:4]]), where='boost/msm/back/favor_compile_time.hpp', instance=Facts.short(m.fe, 160))
